@@ -173,6 +173,18 @@ def run(ctx):
     else:
         ok_, det_ = addfile_writes_when_opened(prog, ab_, reg_)
         ctx.ob("APPLY", "AddFile|writes-when-opened", ok_, det_, ab_.file, ab_.line, sample=True)
+        # ... and creates the directory chain of the new file itself: B may add files under directories A lacks, at any
+        # depth (nothing else in a created patch makes them)
+        from .c03 import UNAVOIDABLE as _UNAV, unavoidable_calls as _unav
+
+        tgt_ = min(reg_, key=lambda b_: (not all(ab_.dominates(b_, x) for x in reg_), b_))
+        got_ = _unav(ab_, tgt_, reg_)
+        if got_ is None:
+            ctx.fail_closed("APPLY", "AddFile arm: no success path found")
+        else:
+            want_ = _UNAV[("Sqpk", "FileOperation", "AddFile")]
+            short_ = {k: (got_.get(k, 0), n_) for k, n_ in want_.items() if got_.get(k, 0) < n_}
+            ctx.ob("APPLY", "AddFile|creates-parent-chain-and-writes", not short_, f"AddFile arm: effects on every successful path {dict(got_)}; required at least {want_}" + (f"; AVOIDABLE {short_}" if short_ else ""), ab_.file, ab_.line)
 
     # ---- CHUNKS
     adds = dels = 0
